@@ -47,6 +47,92 @@ theorem reads_clean {s : State} (h : Inv12 s) {k i : Nat} (hc : s.cache.get k = 
     have hjar : (s.objs i).jar = true := by rw [h.str.jarOid, hoid]; rfl
     exact reads_ghost hs hjar h.opened hoid hr
 
+/-! ### how oids change -/
+
+/-- from `s` to `s'` objects keep their oid, lose it, or get a fresh one -/
+def OidStep (s s' : State) : Prop :=
+  (∀ i k, (s'.objs i).oid = some k → (s.objs i).oid = some k ∨ s.nextOid ≤ k) ∧ s.nextOid ≤ s'.nextOid
+
+theorem OidStep.refl (s : State) : OidStep s s := ⟨fun _ _ h => Or.inl h, Nat.le_refl _⟩
+
+theorem OidStep.of_eq {s s' : State} (ho : ∀ j, (s'.objs j).oid = (s.objs j).oid) (hn : s'.nextOid = s.nextOid) :
+    OidStep s s' := ⟨fun i k h => Or.inl (by rw [← ho i]; exact h), by rw [hn]; exact Nat.le_refl _⟩
+
+theorem OidStep.of_shrink {s s' : State} (h : Shrink s s') : OidStep s s' := by
+  refine ⟨?_, by rw [h.nextOid]; exact Nat.le_refl _⟩
+  intro i k hk
+  rcases h.oid i with h1 | h1
+  · left; rw [← h1]; exact hk
+  · rw [h1.1] at hk; cases hk
+
+theorem access_oidStep (s : State) (i) : OidStep s (access s i).1 := by
+  apply OidStep.of_eq _ (access_nextOid s i)
+  intro j
+  rcases access_objs s i j with h | h
+  · rw [h]
+  · obtain ⟨rfl, _, _, h4, _⟩ := h; exact h4
+
+theorem markChanged_oid (s : State) (i j) : ((markChanged s i).objs j).oid = (s.objs j).oid ∧
+    (markChanged s i).nextOid = s.nextOid := by
+  unfold markChanged
+  dsimp only
+  have hj := join_fields (setO s i { s.objs i with status := .changed })
+  repeat' split
+  all_goals first
+    | exact ⟨rfl, rfl⟩
+    | (constructor
+       · first
+           | (show ((join _).objs j).oid = _; rw [hj.1]; simp only [setO]; split <;> simp_all)
+           | (simp only [setO]; split <;> simp_all)
+       · first | (show (join _).nextOid = _; rw [hj.2.2.2.1]; rfl) | rfl)
+
+theorem mutate_oidStep (s : State) (i f) : OidStep s (mutate s i f).1 := by
+  have ha := access_oidStep s i
+  have hm := fun j => markChanged_oid (access s i).1 i j
+  have hstep : OidStep (access s i).1 (mutate s i f).1 ∨ (mutate s i f).1 = s := by
+    unfold mutate
+    dsimp only
+    repeat' split
+    all_goals first
+      | (right; rfl)
+      | (left; exact OidStep.refl _)
+      | (left
+         apply OidStep.of_eq
+         · intro j
+           simp only [setO]
+           split
+           · subst_vars; exact (hm _).1
+           · exact (hm j).1
+         · exact (hm i).2)
+  rcases hstep with h | h
+  · exact ⟨fun j k hk => by
+      rcases h.1 j k hk with h1 | h1
+      · exact ha.1 j k h1
+      · right; have := ha.2; omega, Nat.le_trans ha.2 h.2⟩
+  · rw [h]; exact OidStep.refl s
+
+theorem opAdd_oidStep (s : State) (i) : OidStep s (opAdd s i).1 := by
+  unfold opAdd
+  dsimp only
+  have hj := join_fields (setO { s with nextOid := s.nextOid + 1 } i
+    { s.objs i with oid := some s.nextOid, jar := true })
+  repeat' split
+  all_goals first
+    | exact OidStep.refl s
+    | (refine ⟨?_, ?_⟩
+       · intro j k hk
+         have hk' : ((join (setO { s with nextOid := s.nextOid + 1 } i
+           { s.objs i with oid := some s.nextOid, jar := true })).objs j).oid = some k := hk
+         rw [hj.1] at hk'
+         simp only [setO] at hk'
+         split at hk'
+         · right; simp at hk'; omega
+         · exact Or.inl hk'
+       · show s.nextOid ≤ (join _).nextOid
+         rw [hj.2.2.2.1]
+         show s.nextOid ≤ s.nextOid + 1
+         omega)
+
 /-! ### a successful `Connection.savepoint` -/
 
 structure SpOk (s m : State) : Prop where
@@ -68,6 +154,7 @@ structure SpOk (s m : State) : Prop where
     (∀ t0, s.sp = some t0 → t0.position ≤ t'.position ∧
       (∀ q, q < t0.position → t'.entries[q]? = t0.entries[q]?) ∧
       (∀ k, t0.creating.has k = true → t'.creating.has k = true))
+  oidStep : OidStep s m
 
 theorem ensureTmp_rel (s : State) :
     (ensureTmp s).objs = s.objs ∧ (ensureTmp s).cache = s.cache ∧ (ensureTmp s).added = s.added ∧
@@ -227,7 +314,7 @@ theorem connSavepoint_spOk {s : State} (h : Inv12 s) (hj : s.needsToJoin = false
     simp only [shared, merged, cx2, cx3, cx4, e5, e12, e13]
   refine ⟨hinv, hreg, haddm, hnc, by rw [hspsm, e9], hntjm, hshared,
     by show r.begun = s.begun; rw [cx9, e7], by show r.fail = s.fail; rw [cx10, e8],
-    by show r.staged = s.staged; rw [hR.staged, e6], ?_, ?_, ⟨t', ht', by rw [← e5]; exact hw, ?_, ?_⟩⟩
+    by show r.staged = s.staged; rw [hR.staged, e6], ?_, ?_, ⟨t', ht', by rw [← e5]; exact hw, ?_, ?_⟩, ?_⟩
   · intro i k hk
     rw [← e1] at hk
     exact howned i k hk
@@ -284,5 +371,16 @@ theorem connSavepoint_spOk {s : State} (h : Inv12 s) (hj : s.needsToJoin = false
     refine ⟨hR.le, hR.pre, ?_⟩
     intro k hk
     exact (hupd k).2 (Or.inl hk)
+  · -- oids
+    refine ⟨?_, by show s.nextOid ≤ r.nextOid; rw [← e11]; exact hP.nextOid⟩
+    intro i k hk
+    have hk' : (r.objs i).oid = some k := hk
+    rw [← e1, ← e11]
+    cases ho : (e.objs i).oid with
+    | none => exact Or.inr (hP.newTracked i k ho hk').1
+    | some k0 =>
+      left
+      have := hP.oidKeep i k0 ho
+      rw [hk'] at this; exact this.symm
 
 end Proofs.Conn
